@@ -24,7 +24,8 @@ LEVEL_TEXT = ("Differential simulation: one seeded history (received lines over 
               "child_id, yielded fields, write lists with success flags and registry snapshots must be equal at every "
               "step. Every single-line history over all internal/stream type numbers of the older protocol x 3 "
               "registry states is swept in the thorough tier.")
-LEVEL_NOTE = ("Version-setting messages (node-0 presentation, I_VERSION) are excluded: they would equalise the pair. "
+LEVEL_NOTE = ("Across 1.x->2.x the comparison of a history ends at the first line that the older version rejects for an "
+              "unknown node/child or that is a gateway-ready message (the stated precondition, decided on the run). Version-setting messages (node-0 presentation, I_VERSION) are excluded: they would equalise the pair. "
               "Across 1.x->2.x histories reference no unknown node/child and contain no gateway-ready; heartbeat "
               "response is excluded between {2.0,2.1} and 2.2 (the stated exception).")
 TECHNIQUE = "deterministic simulation: differential execution of one history under two protocol versions"
@@ -115,7 +116,8 @@ def gen(seed: int, i: int, tier: str) -> dict:
             if t in (0, 22) and rng.random() < 0.25:
                 p = rng.choice(G.ABSURD[t])  # error paths must agree across versions as well
             src = rng.choice([n, 255]) if t == 3 else n
-            ops.append(["line", f"{src};255;3;0;{t};{p}\n"])
+            ch = rng.choice([255, 255, 0, 7, 254]) if t in (3, 4) else 255  # id request/response: any child id
+            ops.append(["line", f"{src};{ch};3;0;{t};{p}\n"])
             if t == 3:
                 # the id request registers a placeholder node (highest id + 1): it is a known node from now on
                 nxt = (max(known) + 1) if known else 1
@@ -187,6 +189,11 @@ def _run_one(version, scn):
         w.close()
 
 
+def _gateway_ready(text: str) -> bool:
+    f = text.split(";")
+    return len(f) >= 6 and f[2].strip() == "3" and f[4].strip() == "14"
+
+
 def run(scn) -> RunResult:
     res = RunResult()
     old, new = scn["pair"]
@@ -205,6 +212,13 @@ def run(scn) -> RunResult:
         if x is None:
             continue
         op = scn["ops"][i]
+        if cross and op[0] == "line" and (x["cls"] in ("MissingNodeError", "MissingChildError")
+                                          or _gateway_ready(op[1])):
+            # "across 1.x to 2.x as long as no unknown node or child is referenced and no gateway-ready message
+            # occurs": decided here, on the reference run, and not by the generator's prediction of the registry
+            # (which id an id request hands out is not specified; a shrunk history may have lost a presentation)
+            res.probes["cross_precondition_ended"] += 1
+            break
         if x["writes"]:
             res.probes["step_with_write"] += 1
             interesting = True
